@@ -3,7 +3,10 @@ import common
 import simcheck
 
 META = {
-    "level_text": ("Theorems (Lean 4, for every world state): cancel / update / replace are accepted iff the order is EXECUTABLE, has a bet id and a "
+    "level_text": ("Whole-run (legal_transitions_whole_run, Props/C03_WholeRun.lean): in every state reachable by any run whose requests go through the order's own "
+                   "market, the status log of every order starts with a legal first status, every further entry is a legal step of the documented "
+                   "lifecycle from the entry before it, and the status is the last entry - every _update_status of the run was a legal transition. "
+                   "Theorems (Lean 4, for every world state): cancel / update / replace are accepted iff the order is EXECUTABLE, has a bet id and a "
                    "compatible type (three iff statements, so loosening or tightening a guard breaks them); a rejection is an error value that "
                    "carries no state; an accepted request appends exactly one legal step (executable -> cancelling / updating / replacing) and keeps "
                    "sizes and bet id; after it - and while a placement is pending - every further request on the order is rejected (at most one "
